@@ -167,6 +167,26 @@ theorem colSum_mulVec (s : Subdomain) (B : Nat → Nat → Rat) (y : Nat → Rat
   rw [sumTo_congr (fun f _ => h1 f), sumTo_comm]
   exact sumTo_congr (fun k _ => sumTo_mul_right s.nf (y k) (fun f => colSum s.nc s.D f * B f k))
 
+/-- `(1ᵀ D B)_f` for a diagonal `B` -/
+theorem gain_diag (s : Subdomain) (d : Nat → Rat) (f : Nat) (hf : f < s.nf) :
+    gain s (diagMat d) f = colSum s.nc s.D f * d f := by
+  unfold gain diagMat
+  have hrew : ∀ k, colSum s.nc s.D k * (if k = f then d k else 0)
+      = (if f = k then colSum s.nc s.D k * d k else 0) := by
+    intro k
+    by_cases hk : f = k
+    · subst hk; simp
+    · have : ¬ k = f := fun e => hk e.symm
+      simp only [this, hk, if_false]; grind
+  rw [sumTo_congr (fun k _ => hrew k), sumTo_indicator]
+  simp only [hf, if_true]
+
+theorem upwindNeu_eq_diag (nc : Nat) (D : Nat → Nat → Rat) (neu : Nat → Bool) :
+    upwindNeu nc D neu = diagMat (fun f => if neu f = true then colSum nc D f else 0) := by
+  funext f f'
+  unfold upwindNeu diagMat
+  by_cases h1 : f = f' <;> by_cases h2 : neu f = true <;> simp [h1, h2]
+
 /-! ### pieces of the residual -/
 
 theorem sum_div (n : Nat) (f : Nat → Rat) (d : Rat) :
